@@ -275,3 +275,74 @@ func decodeAddrPlain(t *testing.T, a ma.Multiaddr) hashSet {
 	})
 	return out
 }
+
+// TestE2EFollowingPeriod: an address learnt in one certificate period is dialled in the
+// following period. Against the listener that kept running (it rotated once) the dial
+// must complete: the address still verifies and the server still confirms both hashes.
+// Against a freshly started listener with the same key (a restart) the certificate
+// still verifies, but the server no longer confirms the older hash, so the dialer must
+// not complete. Both servers run on a mock clock pinned to the same instant t0 (captured
+// once), so that the verdicts do not depend on where the wall clock sits in a period.
+func TestE2EFollowingPeriod(t *testing.T) {
+	if !hx.Thorough() {
+		t.Skip("thorough tier only")
+	}
+	name := t.Name()
+	for i := 0; i < 4; i++ {
+		if !hx.Mine(i) {
+			continue
+		}
+		t.Run(fmt.Sprintf("key%d", i), func(t *testing.T) {
+			t0 := time.Now()
+			cl := clock.NewMock()
+			cl.Set(t0.Add(-period))
+			old := startServer(t, 200+i, wt.WithClock(cl))
+			learnt := decodeAddrPlain(t, old.ln.Multiaddr())
+			if len(learnt) != 2 {
+				t.Fatalf("listener advertises %d certhashes: %s", len(learnt), old.ln.Multiaddr())
+			}
+			// one period later on the same listener
+			cl.Add(period)
+			deadline := time.Now().Add(5 * time.Second)
+			for decodeAddrPlain(t, old.ln.Multiaddr()).key() == learnt.key() {
+				if time.Now().After(deadline) {
+					t.Skip("inconclusive: the mock-clock timer of the certificate manager did not run")
+				}
+				time.Sleep(5 * time.Millisecond)
+			}
+			d := newDialer(t, 200+i)
+			withLearnt := func(a ma.Multiaddr) ma.Multiaddr {
+				out := stripCerthashes(a)
+				for _, h := range learnt {
+					out = out.Encapsulate(certhashComponent(t, h.Digest, h.Code))
+				}
+				return out
+			}
+			err := dialOnce(t, d, withLearnt(old.ln.Multiaddr()), old.id)
+			t.Logf("address learnt one period ago, same listener -> %v", err)
+			if isTimeout(err) {
+				t.Skipf("inconclusive: dial timed out: %v", err)
+			}
+			if err != nil {
+				t.Fatalf("an address learnt in the previous certificate period no longer connects to the listener that kept running: %v", err)
+			}
+			stats.CaseEnumerated(name, true, "e2e:following-period-same-listener")
+
+			cl2 := clock.NewMock()
+			cl2.Set(t0)
+			fresh := startServer(t, 200+i, wt.WithClock(cl2))
+			err = dialOnce(t, d, withLearnt(fresh.ln.Multiaddr()), fresh.id)
+			t.Logf("address learnt one period ago, restarted listener -> %v", err)
+			if isTimeout(err) {
+				t.Skipf("inconclusive: dial timed out: %v", err)
+			}
+			if err == nil {
+				// the restarted server advertises/confirms only {current, next}
+				if now := decodeAddrPlain(t, fresh.ln.Multiaddr()); !now.superset(learnt) {
+					t.Fatalf("dial completed although the restarted server cannot have confirmed every hash the dialer relied on (dialled %v, server has %v)", learnt, now)
+				}
+			}
+			stats.CaseEnumerated(name, true, "e2e:following-period-restarted-listener", fmt.Sprintf("e2e:restarted-listener-dial-completed=%v", err == nil))
+		})
+	}
+}
